@@ -171,14 +171,25 @@ def real_value(path, fname, kwargs):
 
 
 def perturb(kwargs, rng):
-    """another admissible parameter tuple near the documented one (only parameters whose range is obvious)"""
+    """another admissible parameter tuple near the documented one (only parameters whose range is obvious: iteration
+    counts, step sizes and accuracies shrink or grow mildly; a cocoercivity constant may be any positive number; a
+    pair (mu, L) is rescaled jointly so that mu < L is preserved).  Many class formulas coincide at L = 1 or beta = 1,
+    which is what the documented parameter tuples mostly use."""
     kw = dict(kwargs)
+    num = lambda v: isinstance(v, (int, float)) and not isinstance(v, bool)
     if "n" in kw and isinstance(kw["n"], int) and kw["n"] >= 2 and rng.random() < 0.7:
         kw["n"] = max(1, kw["n"] + rng.choice([-1, -1, 1]))
-    if "gamma" in kw and isinstance(kw["gamma"], (int, float)):
+    if "gamma" in kw and num(kw["gamma"]):
         kw["gamma"] = kw["gamma"] * rng.choice([0.5, 0.8, 1.0])
-    if "epsilon" in kw and isinstance(kw["epsilon"], (int, float)):
+    if "epsilon" in kw and num(kw["epsilon"]):
         kw["epsilon"] = kw["epsilon"] * rng.choice([0.5, 1.0, 2.0])
+    if "beta" in kw and num(kw["beta"]) and "L" in kw and "mu" in kw:
+        kw["beta"] = kw["beta"] * rng.choice([0.1, 0.3, 1.0])
+    if "L" in kw and num(kw["L"]) and rng.random() < 0.6 and "gamma" not in kw and "alpha" not in kw:
+        c = rng.choice([0.5, 2.0, 3.0])
+        kw["L"] = kw["L"] * c
+        if "mu" in kw and num(kw["mu"]):
+            kw["mu"] = kw["mu"] * c
     return kw
 
 
@@ -271,7 +282,7 @@ def stream_examples(tier, seed, only=None):
         if time.time() - t0 > budget:
             skipped.append(dict(example=os.path.basename(path), why="time budget of the tier"))
             continue
-        for perturbed in ([False] if tier == "quick" else [False, True]):
+        for perturbed in ([rng.random() < 0.4] if tier == "quick" else [False, True, True]):
             st, rec = check_example(path, rng, n_worlds, perturbed)
             if st == "ok":
                 ok += 1
